@@ -1053,8 +1053,8 @@ func (f *Flow) brokerPublish() {
 			max = 300
 		}
 		tl := 1 + w.Tape.Draw("intopiclen", max)
-		for len(topic) < tl {
-			topic += "/x"
+		if n := (tl - len(topic) + 1) / 2; n > 0 {
+			topic += strings.Repeat("/x", n) // (not a += loop: that is quadratic in allocation for 64 KiB topics)
 		}
 	}
 	size := w.Tape.Draw("insize", 24)
@@ -1195,9 +1195,11 @@ func (f *Flow) done() bool {
 	}
 	w := f.W
 	// (time the scheduler itself let pass by tick actions while the client had
-	// work to do is scheduling latency, not the client's: it does not count
-	// against L; the step allowance S bounds such a phase)
-	if f.S.Now()-f.QStartTime-(f.S.TickTime-f.QStartTick) > f.L() {
+	// work to do is scheduling latency, not the client's: it counts for a
+	// fifth only. Not counting it at all would leave a client that loops
+	// without ever waiting to the step allowance S alone, 200,000 steps
+	// and more per run.)
+	if f.S.Now()-f.QStartTime-(f.S.TickTime-f.QStartTick)*4/5 > f.L() {
 		return true
 	}
 	if w.Steps-f.QStartStep > f.stepAllowance() {
